@@ -52,7 +52,7 @@ def run(ctx):
     except Exception:
         hconf = None              # see run_family: controlled legs degrade, the exhaustive runs of the model still happen
     crnd = random.Random(ctx.seed * 7919 + 55)
-    configs = [('C21', 1, 1, 0), ('C102u', 2, 2, 1)] if quick else [('C21', 1, 1, 0), ('C21', 2, 2, 0), ('C102u', 2, 2, 1), ('C22', 2, 2, 1), ('C22', 2, 1, 0)]
+    configs = [('C21', 1, 1, 0), ('C102u', 2, 2, 1), ('C2', 2, 2, 1)] if quick else [('C21', 1, 1, 0), ('C21', 2, 2, 0), ('C102u', 2, 2, 1), ('C22', 2, 2, 1), ('C22', 2, 1, 0)]
     if hconf is not None:
         sc0 = poolconf.scen_for("C2", 1, 1, 0, JUDGE)
         sc0.update(pool="factory", quota=1)
